@@ -109,7 +109,8 @@ def run(ctx):
 def judge(ctx, b):
     verdict, detail = b.classify()
     out = {}
-    for i, res in enumerate(b.results):
+    for i in sorted(range(len(b.results)), key=lambda j: (b.results[j]["kind"] != "witness", j)):     # the witness first: its message is the one printed
+        res = b.results[i]
         c = out.setdefault(res["kind"], dict(strict=0, asbuilt=0, rejected=0, unvalidated=0, skipped=0, two_live=0, stuck=0))
         cmds = res["cmds"]
         ctx.count_case([[x["a"], x["p"], x["x"]] for x in cmds], nontrivial=len(cmds) >= 4)
